@@ -9,7 +9,7 @@ Exit status: 0 property held on everything explored (KNOWN-FINDING lines allowed
              1 violation (a line `VIOLATION property=<id> replay=<path>` is printed)
              2 infrastructure problem / inconclusive (never a violation)
 """
-import json, os, shutil, subprocess, sys, time, glob, hashlib, tempfile, signal
+import json, os, shutil, subprocess, sys, time, glob, hashlib, tempfile, signal, resource
 
 VERIF = os.path.dirname(os.path.abspath(__file__))
 HARNESS = os.path.join(VERIF, "harness")
@@ -114,6 +114,8 @@ def shard_env(prop_id, cfg, tier, seed, idx, n, tmp, mode):
     })
     if cfg.get("corpus"):
         e["VERIF_CORPUS"] = os.path.join(BUILD, "corpus.json")
+    if cfg.get("mem_limit_mb"):
+        e["VERIF_MEM_LIMIT_MB"] = str(cfg["mem_limit_mb"])
     if cfg.get("crash_is_violation"):
         e["VERIF_JOURNAL"] = os.path.join(tmp, "fails", "journal-%d.json" % idx)
     e.pop("VERIF_REPLAY_FILE", None)
@@ -126,7 +128,13 @@ def run_procs(specs, timeout):
     for cmd, env, logpath in specs:
         f = open(logpath, "wb")
         os.makedirs(env["VERIF_TMP"], exist_ok=True)
-        procs.append((subprocess.Popen(cmd, env=env, cwd=env["VERIF_TMP"], stdout=f, stderr=subprocess.STDOUT, start_new_session=True), f))
+        lim = int(env.get("VERIF_MEM_LIMIT_MB", "0") or 0)
+
+        def pre(lim=lim):
+            # an unbounded allocation loop in code under test must kill the shard, not the machine
+            if lim > 0:
+                resource.setrlimit(resource.RLIMIT_AS, (lim << 20, lim << 20))
+        procs.append((subprocess.Popen(cmd, env=env, cwd=env["VERIF_TMP"], stdout=f, stderr=subprocess.STDOUT, start_new_session=True, preexec_fn=pre), f))
     deadline = time.time() + timeout
     res = []
     for p, f in procs:
@@ -273,7 +281,7 @@ def _check(prop_id, cfg, tier, seed, tmp, start, replay_file):
             if os.path.exists(hp):
                 violations.append({"test": "hang", "replay": hp, "msg": "oracle call did not return (hang)"})
                 continue
-        if cfg.get("crash_is_violation") and os.path.exists(j) and ("fatal error:" in t or "panic:" in t or "SIGSEGV" in t or "goroutine " in t):
+        if cfg.get("crash_is_violation") and os.path.exists(j) and ("fatal error:" in t or "panic:" in t or "SIGSEGV" in t or "goroutine " in t or "out of memory" in t or "cannot allocate memory" in t):
             try:
                 jd = json.load(open(j))
                 jd["observed"] = "test process died (rc=%s): %s" % (rc, t[-3000:])
